@@ -621,6 +621,35 @@ func genFilters(repo, out string) {
 	writeIfChanged(filepath.Join(out, "Filters.lean"), b.String())
 }
 
+const pinnedTaintAppend = `updatedNode.Spec.Taints = append(updatedNode.Spec.Taints, apiv1.Taint{ Key: ToBeRemovedByAutoscalerKey, Value: fmt.Sprint(time.Now().Unix()), Effect: effect, })`
+
+// genAddTaint: the skeleton of k8s.AddToBeRemovedTaint (pkg/k8s/taint.go)
+func genAddTaint(repo, out string) {
+	f := parse(filepath.Join(repo, "pkg/k8s/taint.go"))
+	var b strings.Builder
+	b.WriteString("/- GENERATED by /verif/extract from /repo/pkg/k8s/taint.go (AddToBeRemovedTaint) — do not edit. -/\nimport Esc.Gen.Arith\nnamespace Esc.Gen\n\n")
+	a := &ar{fn: "taintOpFn"}
+	body := "  (true, false, 0) -- not found"
+	if fd := findFunc(f, "AddToBeRemovedTaint"); fd != nil && fd.Body != nil {
+		a.atoms = map[string][2]string{"apiv1.TaintEffectNoSchedule": {"(0 : Int)", "I"}, "taintEffect": {"(1 : Int)", "I"}, "len(taintEffect)": {"effectLen", "I"}}
+		a.callAtoms = map[string][][2]string{
+			"client.CoreV1().Nodes().Get(context.TODO(), node.Name, metav1.GetOptions{})":         {{"getNil", "N"}, {"getErr", "B"}},
+			"client.CoreV1().Nodes().Update(context.TODO(), updatedNode, metav1.UpdateOptions{})": {{"updNil", "N"}, {"updErr", "B"}},
+		}
+		a.callPre = map[string]string{"client.CoreV1().Nodes().Update(context.TODO(), updatedNode, metav1.UpdateOptions{})": "let updateCalled_ : Bool := true"}
+		a.containsAtoms = map[string]string{"updatedNode.Spec.Taints|_x.Key == ToBeRemovedByAutoscalerKey": "hasEsc"}
+		a.assignAtoms = map[string]string{pinnedTaintAppend: "let appendedEffect_ : Int := effect"}
+		a.markInert(fd.Body.List, map[string]bool{})
+		body = "  let updateCalled_ : Bool := false\n  let appendedEffect_ : Int := (-1)\n" + a.block(fd.Body.List, env{}, "  ")
+	} else {
+		a.unknown++
+	}
+	b.WriteString("/-- `AddToBeRemovedTaint`: (an error is returned, the UPDATE was sent, the effect of the taint appended before it: 0 = NoSchedule,\n    1 = the configured effect, −1 = nothing appended). `getNil` / `getErr`, `updNil` / `updErr`: what GET and UPDATE returned; `hasEsc`: the\n    fetched copy carries a taint with the escalator key; `effectLen`: length of the configured effect. The appended taint is, textually,\n    the pinned one: escalator key, `fmt.Sprint(time.Now().Unix())`, that effect. -/\n")
+	b.WriteString("def addTaint (getNil getErr hasEsc : Bool) (effectLen : Int) (updNil updErr : Bool) : Bool × Bool × Int :=\n" + body + "\n\n")
+	fmt.Fprintf(&b, "def numAddTaintUnknown : Nat := %d\n\nend Esc.Gen\n", a.unknown)
+	writeIfChanged(filepath.Join(out, "AddTaint.lean"), b.String())
+}
+
 func genReap(repo, out string) {
 	sd := parse(filepath.Join(repo, "pkg/controller/scale_down.go"))
 	var b strings.Builder
